@@ -96,6 +96,9 @@ PROGRAMS = {
                       M("create", a="primary"), M("read", "pdet"), M("save"), M("close_run"), M("unstage", "pdet")]},
     "err": {"msgs": [M("open_run"), M("checkpoint"), M("null"), M("null"), M("close_run", a="fail"), M("null")],
             "kind": "finally", "try": [2, 4], "cleanup": [5, 5], "raise_at": 4},
+    # a non-resumable section in which implicit-checkpoint commands are executed (they must NOT make the plan resumable again);
+    # the run is left open: the engine closes it, with the status the way the call ended dictates
+    "nores_open": {"msgs": [M("open_run"), M("checkpoint"), M("clear_checkpoint"), M("stage", "det"), M("null"), M("unstage", "det"), M("null")]},
     "openonly": {"msgs": [M("open_run"), M("checkpoint"), M("sleep"), M("null")]},
     # pauses requested by the plan itself (Msg('pause')): resumable, deferred, and in a non-resumable section with the run left open
     "selfpause": {"msgs": [M("open_run"), M("checkpoint"), M("null"), M("pause", a="F"), M("null"), M("checkpoint"), M("pause", a="T"), M("null"),
@@ -195,7 +198,8 @@ def run_one(sc):
         s = Scenario(sc)
         ev = s.run()
         return {"id": sc["id"], "events": normalise(ev), "points": s.points, "outcomes": s.outcomes,
-                "final": s.final_state, "sched": s.rec.sched, "error": None}
+                "final": s.final_state, "sched": s.rec.sched,
+                "error": "the execution exceeded the harness's hard time limit without the loop ever being quiescent" if getattr(s, "stalled", False) else None}
     except BaseException as e:  # noqa
         import traceback
         return {"id": sc["id"], "events": [], "points": 0, "outcomes": [], "final": "?", "sched": [],
@@ -435,7 +439,7 @@ def corpus_spec(tier):
     """the list of sweeps that make up the corpus"""
     quick = tier == "quick"
     sweeps = []
-    progs = ["simple", "two", "fin", "move", "mon", "multi", "defer", "norew", "paus", "err", "openonly", "amove", "aopen",
+    progs = ["simple", "two", "fin", "move", "mon", "multi", "defer", "norew", "paus", "err", "openonly", "nores_open", "amove", "aopen",
              "selfpause", "selfpause_nores", "selfdefer_nores", "norew_save"]
     kinds = REQ_KINDS
     if quick:
